@@ -143,3 +143,51 @@ Theorem C12_discovery_meets_roots_spec : forall st ls, ls <> [] ->
   roots_spec_b (current_list ls) (r_local m) (r_writable m) (r_gateway m) = true.
 Proof. exact model_passes_disc_spec. Qed.
 Print Assumptions C12_discovery_meets_roots_spec.
+
+(* ---- one probe order for readers ACROSS retry rounds (model/C12_retry.v; the loop is getOrHead's as transcribed in
+   model/C03_model.v: get_or_head ans retries order loc, request log g_log).  ans : service -> round -> response;
+   transient = no response / 408 / 429 / >= 500; eligible ans a s = s answered every round before a transiently;
+   probe_seq ans retries order = rounds 0..retries, round a = the eligible services in the order of [order],
+   cut after the first probe answered 200. ---- *)
+From AV Require Import model.C03_model model.C12_retry proofs.C12_retry_proofs.
+
+(* the loop's probe sequence IS that closed form, for every answer function, first-round order and retry limit *)
+Theorem C12_retry_loop_is_closed_form : forall ans retries order loc,
+  empty_block_loc loc = false -> g_log (get_or_head ans retries order loc) = probe_seq ans retries order.
+Proof. exact loop_log_is_probe_seq. Qed.
+Print Assumptions C12_retry_loop_is_closed_form.
+
+(* a service is probed in round a only within the retry limit, only if it is a service of the first round, and only
+   if it answered EVERY earlier round with a transient failure: never again after a definitive answer (404, 403 ...) *)
+Theorem C12_probed_only_while_transient : forall ans retries order s a,
+  In (s, a) (probe_seq ans retries order) ->
+  a <= retries /\ In s order /\ forall b, b < a -> transient (ans s b) = true.
+Proof. exact probed_only_while_transient. Qed.
+Print Assumptions C12_probed_only_while_transient.
+
+(* the rounds are walked one after the other, each in the order of the first round (rendezvous order after the usable
+   hints), and nothing is probed after a 200 *)
+Theorem C12_probe_seq_is_prefix_of_rounds : forall ans retries order,
+  exists k, probe_seq ans retries order =
+            firstn k (flat_map (fun a => map (fun s => (s, a)) (filter (eligible ans a) order)) (seq 0 (Datatypes.S retries))).
+Proof. exact probe_seq_is_prefix_of_rounds. Qed.
+Print Assumptions C12_probe_seq_is_prefix_of_rounds.
+
+(* each service at most once per round *)
+Theorem C12_probe_seq_nodup : forall ans retries order, NoDup order -> NoDup (probe_seq ans retries order).
+Proof. exact probe_seq_nodup. Qed.
+Print Assumptions C12_probe_seq_nodup.
+
+(* the boolean oracle of stage c12retry means: the observed probe sequence is the closed form; and the loop passes it *)
+Theorem C12_retry_spec_b_reflects : forall c : rcase,
+  retry_spec_b c = true <-> (NoDup (r_order c) -> o_probes c = probe_seq (ans_of c) (r_retries c) (r_order c)).
+Proof. exact retry_spec_b_reflects. Qed.
+Print Assumptions C12_retry_spec_b_reflects.
+
+Theorem C12_retry_model_meets_spec : forall retries loc order script,
+  empty_block_loc loc = false ->
+  let c0 := {| r_retries := retries; r_loc := loc; r_order := order; r_script := script; o_probes := nil |} in
+  retry_spec_b {| r_retries := retries; r_loc := loc; r_order := order; r_script := script;
+                  o_probes := g_log (get_or_head (ans_of c0) retries order loc) |} = true.
+Proof. exact retry_model_meets_spec. Qed.
+Print Assumptions C12_retry_model_meets_spec.
